@@ -42,3 +42,19 @@ Proof.
   - rewrite peek_pad. reflexivity.
   - unfold sample_base in Hp. rewrite Hp. exists m. split; [reflexivity|exact Hm].
 Qed.
+
+(* ---- IPFIX dataLinkFrameSection (element 315) ---- *)
+From GF Require Import Model.ProdNF.
+
+Theorem ipfix_frame_section f m0 base up :
+  wf_frame f = true ->
+  mgetLI m0 cLayerStack = [] -> mgetLI m0 cLayerSize = [] -> mgetLB m0 cRhAddrs = [] ->
+  exists m1, parse_packet empty_pcfg m0 (encode_frame f) = Ok m1 /\ meq m1 (framed m0 f) /\
+    nf_field empty_prodcfg 10 base up m0 315 (encode_frame f) =
+    Ok (let m2 := msetI m1 cPackets 1 in if mgetI m2 cBytes =? 0 then msetI m2 cBytes (lenN (encode_frame f)) else m2).
+Proof.
+  intros Hwf H1 H2 H3.
+  destruct (parse_full_capture_on m0 f [] Hwf H1 H2 H3) as (m1 & Hp & Hm); [rewrite app_nil_r; reflexivity|].
+  rewrite app_nil_r in Hp. exists m1. split; [exact Hp|]. split; [exact Hm|].
+  unfold nf_field. cbn [N.eqb Pos.eqb empty_prodcfg pPacket]. rewrite Hp. reflexivity.
+Qed.
